@@ -29,6 +29,12 @@ CLAIMED = {
  "C13": dict(cat="exploration", technique="metamorphic monitor over layout variants of one patch (API outputs as canonical trees; CLI stderr descriptions)",
    text="Each base patch (random patterns, schema library, the repository's testdata patches with their inputs) is re-laid out by 10 compositions of the transformations the statement lists; every variant must be accepted iff the base is and give canonically the same output on every file; '#' lines directly above the header, and only those, must be printed as the description.",
    note="Only transformations named in the property statement are generated; description text compared modulo leading '#'/blanks.", ref="5/C13"),
+ "C10": dict(cat="exploration", technique="exhaustive guard table (6300 cells) run through the real engine, judged by the statement's table",
+   text="The full cross product of patch-side import forms, file-side forms (incl. a path imported twice, dot and blank imports), a second guard import, import block shapes, package clause variants (incl. renames) and guard-line prefixes is enumerated; each cell is a file in which the code pattern occurs, and the monitor checks 'applied iff every guard holds'. Library API for all cells, CLI for every 8th batch.",
+   note="Exhaustive for the enumerated dimensions only (one code pattern, one path per guard); 'stated form' for a path imported twice: any spec may satisfy the guard.", ref="5/C10"),
+ "C11": dict(cat="exploration", technique="import-set effect monitor over generated import blocks (input vs output (name,path) sets and remaining selector uses)",
+   text="11 import-manipulating patches are applied to files whose import blocks contain the affected import in every form plus 0-8 unrelated imports in every block shape, with and without remaining uses; the monitor compares input and output import sets: unmentioned imports unchanged, nothing added, '+' imports present under the right name, '-' imports gone iff unreferenced or taken over, referenced matched imports kept.",
+   note="Package name of an import = explicit name, else last path element (files are generated so that they coincide). Context-line imports that become unreferenced are don't-care.", ref="5/C11"),
 #NEXT
 }
 
